@@ -2,6 +2,7 @@ package c17
 
 import (
 	"fmt"
+	"github.com/iotaledger/hive.go/runtime/debug"
 	"runtime"
 	"sort"
 	"sync"
@@ -128,10 +129,17 @@ func scriptLabels(s script, res result) []string {
 // TestRandomScripts: longer scripts on up to three entities under the schedule controller.
 func TestRandomScripts(t *testing.T) {
 	const check = "random_scripts"
-	stats.Rule(check, "rapid draws 2-4 goroutine programs (1-3 acquisitions each, Lock/RLock incl. multi-entity RLock and nested acquisition in ascending entity order on 1-3 entities; StarvingMutex: one entity) and an arrival order (permutation of all operations); executed under the schedule controller; oracles: exclusion monitor on observed events, every operation that the reference RW model says must be granted is granted within ctl.HangTimeout, no legal operation panics; non-trivial = an operation was observed blocked and granted later, or >=2 operations queued on one entity; distinct by (mutex, programs, arrival order)")
+	stats.Rule(check, "rapid draws 2-4 goroutine programs (1-3 acquisitions each, Lock/RLock incl. multi-entity RLock and nested acquisition in ascending entity order on 1-3 entities; StarvingMutex: one entity) and an arrival order (permutation of all operations); executed under the schedule controller, a third of them with hive.go's debug mode (deadlock detector wait path) enabled; oracles: exclusion monitor on observed events, every operation that the reference RW model says must be granted is granted within ctl.HangTimeout, no legal operation panics; non-trivial = an operation was observed blocked and granted later, or >=2 operations queued on one entity; distinct by (mutex, programs, arrival order)")
 	rapid.Check(t, func(rt *rapid.T) {
 		mutex := rapid.SampledFrom([]string{"starving", "dag", "dag"}).Draw(rt, "mutex")
 		s := genScript(rt, mutex, 4, 3, 3)
+		// hive.go's debug mode routes every blocking acquisition through a different wait path (deadlock detector):
+		// a third of the scripts run with it switched on (process-wide flag, restored before the next case)
+		if rapid.IntRange(0, 2).Draw(rt, "debugMode") == 0 {
+			debug.SetEnabled(true)
+			defer debug.SetEnabled(false)
+			stats.Label(check, "hive_debug_mode_on")
+		}
 		res := runScript(s, nil)
 		noteParking(check, res)
 		stats.Case(check, res.Blocked > 0 || res.MaxQueued >= 2, s.key(), s.sample, scriptLabels(s, res)...)
